@@ -2,7 +2,7 @@
 (***************************************************************************)
 (* Named deviations of today's code from the ideal specification.  Each    *)
 (* id owns an input class and an exact as-is outcome, modelled where the   *)
-(* decision is taken: Codec!Dec, Responder!Proc, Responder!EncAsIs and the  *)
+(* decision is taken: Codec!Dec, Responder!Proc, Responder!WriterAsIs and the  *)
 (* per-property explanations in Trace.tla.  The constant Open of a model   *)
 (* or trace run says which of them are currently accepted as known         *)
 (* findings; a deviation that is not open suppresses nothing.              *)
